@@ -1,4 +1,5 @@
 import RbModel.Morx
+import RbModel.MorxPurge
 import RbModel.Spec.Aat
 import RbModel.Drv.Util
 
@@ -210,6 +211,31 @@ def parseFont (ts : List String) : Option Font := do
   let (f, rest) ← pFont.run ns
   if rest.isEmpty then some f else none
 
+/-- text of a `shapeenv` request: `hexcp:cluster,...`; the cmap of the generated fonts maps U+E000+i to glyph i+1
+    (i + 1 < numGlyphs), everything else to .notdef -/
+def pText (numGlyphs : Nat) (s : String) : Option (List G) :=
+  if s == "-" then some [] else
+  (splitOn1 s ',').mapM (fun t => match splitOn1 t ':' with
+    | [c, k] => do
+        let c ← hexNat c; let k ← k.toNat?
+        let gid := if 0xE000 ≤ c && c - 0xE000 + 1 < numGlyphs then c - 0xE000 + 1 else 0
+        pure (⟨gid, k⟩ : G)
+    | _ => none)
+
+/-- `<gsub><gpos><gposkern><kerx><kern><gdef>/<gid>gid.…|->` -/
+def pEnv (s : String) : Option Env :=
+  match splitOn1 s '/' with
+  | [bits, mp] => do
+    let bs := bits.toList.map (· == '1')
+    if bs.length != 6 then none
+    let pairs ← if mp == "-" then some [] else
+      (splitOn1 mp '.').mapM (fun t => match splitOn1 t '>' with
+        | [a, b] => do let a ← a.toNat?; let b ← b.toNat?; pure (a, b)
+        | _ => none)
+    pure { gsub := bs.getD 0 false, gpos := bs.getD 1 false, gposKern := bs.getD 2 false, kerx := bs.getD 3 false,
+           kern := bs.getD 4 false, gsubMap := assoc pairs }
+  | _ => none
+
 def cmds : List String := ["morx"]
 
 def handle (ts : List String) : Option String :=
@@ -239,6 +265,28 @@ def handle (ts : List String) : Option String :=
         let (_, cf) ← compileFeats f feats
         let b ← applyChains f.chains (cf.map List.toArray) b
         pure s!"ok {b2s b.successful} {b.maxOps} {fmtGlyphs (b.info.extract 0 b.len).toList} F {fmtFlags cf}"
+      match r with
+      | .ok s => pure s
+      | .error p => pure (panicStr p)
+    | _ => none
+  | ["purge", level, gs] => do
+    let level ← level.toNat?
+    let gs ← pGlyphs gs
+    pure s!"ok {fmtGlyphs (purge level gs)}"
+  | "shapeenv" :: _hex :: "R" :: rest => do
+    let (rec, inp) := splitAtI rest
+    let f ← parseFont rec
+    match inp with
+    | [env, dir, level, feats, text] =>
+      let e ← pEnv env
+      let level ← level.toNat?
+      let gs ← pText f.numGlyphs text
+      let feats ← pFeats feats
+      let b := mkBuf gs level dir
+      let r : RbModel.Morx.M String := do
+        let (_, cf) ← compileFeats f feats
+        let (ap, out) ← shapeMorx f.chains (cf.map List.toArray) e b
+        pure s!"ok {fmtGlyphs out} P {b2s ap.morx}{b2s ap.gpos}{b2s ap.kerx}{b2s ap.kern}"
       match r with
       | .ok s => pure s
       | .error p => pure (panicStr p)
